@@ -64,7 +64,8 @@ func (q *Queue[T]) Acquire(ctx context.Context, e T) (func(), error) {
 	case <-ctx.Done():
 		// context abort, remove queued entry
 		q.mu.Lock()
-		if i := slices.Index(q.queued, &e); i >= 0 {
+		// find the entry by its wait channel, the address of a zero size entry (struct{}) is not unique
+		if i := slices.Index(q.wait, &w); i >= 0 {
 			q.queued = slices.Delete(q.queued, i, i+1)
 			q.wait = slices.Delete(q.wait, i, i+1)
 			q.mu.Unlock()
